@@ -269,6 +269,16 @@ def cases(ctx):
 
 # ------------------------------------------------------------------ schema types (ops 40 / 41)
 # field kinds: d8 d16 d32 ttl q (character-string) n (name) hex b64 txt ; attribute names in constructor order
+# keys: the type code for class IN; A in class CH (the only class-specific implementation outside IN) has the
+# key rdclass * 65536 + rdtype, as in RdTextM.schema_of
+CH_A = 3 * 65536 + 1
+
+
+def class_type(key):
+    c, t = divmod(key, 65536)
+    return (c or int(dns.rdataclass.IN)), t
+
+
 SCHEMA = {
     1: ("a4", ["address"]), 28: ("a6", ["address"]), 105: ("d16 a4", ["preference", "locator32"]),
     51: ("d8 d8 d16 hextok", ["algorithm", "flags", "iterations", "salt"]),
@@ -297,6 +307,7 @@ SCHEMA = {
     24: ("etype ealgnum i8 ttl sigtime sigtime i16 n b64",
          ["type_covered", "algorithm", "labels", "original_ttl", "expiration", "inception", "key_tag", "signer", "signature"]),
     108: ("eui6", ["eui"]), 109: ("eui8", ["eui"]),
+    CH_A: ("n o16", ["domain", "address"]),
     104: ("d16 fmthex", ["preference", "nodeid"]), 106: ("d16 fmthex", ["preference", "locator64"]),
     43: ("d16 alg d8 hex", ["key_tag", "algorithm", "digest_type", "digest"]),
     59: ("d16 alg d8 hex", ["key_tag", "algorithm", "digest_type", "digest"]),
@@ -305,7 +316,7 @@ SCHEMA = {
     16: ("txt", ["strings"]), 99: ("txt", ["strings"]), 258: ("txt", ["strings"]), 56: ("txt", ["strings"]),
     261: ("txt", ["strings"]), 262: ("txt", ["strings"]),
 }
-MAXV = {"d8": 255, "d16": 65535, "d32": 2**32 - 1, "ttl": 2**32 - 1, "i8": 255, "i16": 65535}
+MAXV = {"o16": 65535, "d8": 255, "d16": 65535, "d32": 2**32 - 1, "ttl": 2**32 - 1, "i8": 255, "i16": 65535}
 # signature times around day / month / leap-year / century boundaries and the ends of the 32-bit range
 SIGTIMES = [0, 1, 59, 60, 3599, 3600, 86399, 86400, 68169599, 68169600, 951782399, 951782400, 951868799, 951868800,
             1709164800, 1709251199, 1709251200, 2**31 - 1, 2**31, 4107542399, 4107542400, 4294967295]
@@ -404,8 +415,9 @@ def build_rdata(rdtype, vals):
     kinds = SCHEMA[rdtype][0].split()
     args = [mkname(v) if k == "n" else [(w, bytes(b)) for w, b in v] if k == "bm" else bytes(v).decode("latin-1") if k == "fmthex" else v
             for k, v in zip(kinds, vals)]
-    cls = dns.rdata.get_rdata_class(dns.rdataclass.IN, rdtype)
-    return cls(dns.rdataclass.IN, rdtype, *args)
+    rdclass, rdt = class_type(rdtype)
+    cls = dns.rdata.get_rdata_class(rdclass, rdt)
+    return cls(rdclass, rdt, *args)
 
 
 def style_obj(sty):
@@ -441,7 +453,7 @@ def schema_cases(ctx):
         if rng.random() < 0.5:
             # the same value (boundary values of every field) through the record-level oracle
             try:
-                yield "rd-schema-value", [100, int(dns.rdataclass.IN), rdtype, rd.to_wire(), rng.randrange(2)]
+                yield "rd-schema-value", [100, class_type(rdtype)[0], class_type(rdtype)[1], rd.to_wire(), rng.randrange(2)]
             except Exception:  # noqa
                 pass
         pc = gen_pctx(rng)
@@ -790,7 +802,7 @@ def impl(case):
             return enc(build_rdata(case[1], case[2]).to_text(style=style_obj(case[3])))
         if op == 41:
             org, rel, relto = case[3]
-            rd = dns.rdata.from_text(dns.rdataclass.IN, case[1], dec(case[2]), origin=mkname(org), relativize=bool(rel),
+            rd = dns.rdata.from_text(class_type(case[1])[0], class_type(case[1])[1], dec(case[2]), origin=mkname(org), relativize=bool(rel),
                                      relativize_to=mkname(relto))
             out = []
             for k, a in zip(SCHEMA[case[1]][0].split(), SCHEMA[case[1]][1]):
@@ -994,11 +1006,12 @@ def widen(ctx, disagreements):
         try:
             if op == 40:
                 rd = build_rdata(case[1], case[2])
-                check_wire(IN, case[1], rd.to_wire(), "schema to_text disagreement")
+                check_wire(class_type(case[1])[0], class_type(case[1])[1], rd.to_wire(), "schema to_text disagreement")
             elif op == 41:
                 org, rel, relto = case[3]
-                rd = dns.rdata.from_text(IN, case[1], dec(case[2]), origin=mkname(org), relativize=bool(rel), relativize_to=mkname(relto))
-                check_wire(IN, case[1], rd.to_wire(origin=dns.name.root), "schema from_text disagreement")
+                kc, kt = class_type(case[1])
+                rd = dns.rdata.from_text(kc, kt, dec(case[2]), origin=mkname(org), relativize=bool(rel), relativize_to=mkname(relto))
+                check_wire(kc, kt, rd.to_wire(origin=dns.name.root), "schema from_text disagreement")
             elif op in (50, 51):
                 a = case[1] if op == 50 else dns.ipv4.inet_aton(dec(case[1]))
                 check_wire(IN, int(dns.rdatatype.A), a, "ipv4 text disagreement")
